@@ -83,13 +83,14 @@ RULE = (
     "distinct = distinct string."
 )
 EXHAUSTIVE = {
-    "quick": "all strings of <= 2 atoms over the 70-atom alphabet + all strings of <= 5 characters over the 7-character window alphabet (19,608), all 6 functions and 28 compositions",
-    "thorough": "all strings of <= 3 atoms over the 70-atom alphabet + all strings of <= 6 characters over the 8-character window alphabet (299,593), all 6 functions and 28 compositions",
+    "quick": "all strings of <= 2 atoms over the 70-atom alphabet + all strings of <= 5 characters over the 7-character window alphabet (19,607), all 6 functions and 28 compositions",
+    "thorough": "all strings of <= 3 atoms over the 70-atom alphabet + all strings of <= 6 characters over the 8-character window alphabet (299,592), all 6 functions and 28 compositions",
 }
 TRUSTED = [
     "Lean 4 kernel; axioms of every listed theorem audited to be within {propext, Classical.choice, Quot.sound}",
     "hand-written Lean model UralModel/Model/Quote.lean of ural/quote.py (tokens / itemOf / assemble / flush), tied to the code by differential execution (this run); the UNSAFE_FOR_* byte sets, the flags of the four functools.partial objects and the regex pattern strings are regenerated from the imported module on every run (Gen/QuoteTables.lean) and enter the theorems through decide-checked table obligations",
     "UTF-8: Lean core's ByteArray.utf8DecodeChar? / String.utf8EncodeChar (with core's public round-trip theorems) stand for CPython's codec; compared on byte strings in this run",
+    "the three regexes of safely_quote / upper_quoted (QUOTED_SPLIT_RE, QUOTED_RE, LOWERCASE_QUOTED_RE) are modelled by the hand-written scanner `tokens` (a '%' followed by two hex digits is an escape, escapes cannot overlap); their pattern strings and flags are pinned by the obligation tables_patterns, the behaviour is compared in this run",
     "urllib.parse.quote (default safe='/') is modelled as 'unreserved and / stay, every other UTF-8 byte becomes %XX upper-case' (CPython, modelled not verified; compared in this run)",
 ]
 ASSUMPTIONS = [
@@ -156,7 +157,7 @@ def cases(rng, tier):
     for k in range(1, top + 1):
         for t in itertools.product(alpha, repeat=k):
             yield {"s": "".join(t)}
-    n = 30000 if tier == "quick" else 120000
+    n = 24000 if tier == "quick" else 120000
     for i in range(n):
         k = rng.randint(3, 12)
         c = {"s": "".join(rng.choice(ATOMS) for _ in range(k))}
